@@ -38,16 +38,23 @@ LEVEL_TEXT = ("Seeded exploration of admissible operation histories over generat
 
 def generate(r, tier):
     big = tier == "thorough"
-    prog = kgen.gen_program(r, hi=20 if big else 12)
+    # (in a tenth of the programs some numeric options have no default at all: legal, they are written as `CONFIG_X=`)
+    prog = kgen.gen_program(r, hi=20 if big else 12, p_nodefault=0.25 if r.random() < 0.1 else 0.0)
     sc = {"prog": prog, "parser": kgen.pick_parser(r, prog, 0.05), "hash_salt": r.getrandbits(32),
           "policy": r.choice([None, "sdkconfig", "kconfig"])}
     olds = []
     sc["renames"] = None
     if r.random() < 0.35:
         sc["renames"], olds = kgen.rename_table(r, prog)
-    sc["hand"] = [kgen.handwritten(r, prog, olds=olds, sane=r.random() < 0.7) for _ in range(r.randint(0, 2))]
+    nodef = {c["name"] for c in kgen.walk(prog["items"]) if c["k"] == "config" and c["type"] in kgen.RANGES and not c["defaults"]}
+    # deprecated aliases of such options are left out of the hand-written files as well
+    olds = [o for o in olds if not any(ln.split()[0] == "CONFIG_" + o and ln.split()[1].lstrip("!")[len("CONFIG_"):] in nodef
+                                        for ln in (sc["renames"] or "").splitlines() if len(ln.split()) == 2)]
+    sc["hand"] = [kgen.handwritten(r, prog, olds=olds, sane=r.random() < 0.7, avoid=nodef) for _ in range(r.randint(0, 2))]
+    # numeric options without any default are never given a user value here: an out-of-range one would leave them with no
+    # value at all and an unmarked `CONFIG_X=` line, which cannot be loaded back (outside the statement's well-formed space)
     sc["ops"] = ops.gen_history(r, prog, r.randint(0, 25), weights={"read": 6, "edge": 10, "save": 8, "load": 8, "restart": 5}, hand_n=len(sc["hand"]),
-                                sane=0.7)
+                                sane=0.7, avoid=nodef)
     return sc
 
 
